@@ -135,6 +135,42 @@ def client_requests(reg):
     return out
 
 
+class _BrineProxy:
+    """stands in for `brine` inside rpyc.utils.registry: the real module, except that dumping a reply listed in
+    `fail_on` raises RecursionError (what the interpreter does for a stored port nested near its recursion limit)"""
+    def __init__(self, real, fail_on):
+        self._real, self._fail_on = real, fail_on
+
+    def dump(self, obj):
+        if any(obj == f and type(obj) is type(f) for f in self._fail_on):
+            raise RecursionError("maximum recursion depth exceeded")
+        return self._real.dump(obj)
+
+    def __getattr__(self, name):
+        return getattr(self._real, name)
+
+
+def reply_dump_guarded(reg, magic, reqs):
+    """does the live `_work` go on after `brine.dump(reply)` raised (observed: register, a query whose reply cannot be
+    dumped, then a query that can)"""
+    from rpyc.core import brine
+    regc = [c for _c, m, _mg, c, _d in reqs if m == "register"][0]
+    qc = [c for _c, m, _mg, c, _d in reqs if m == "discover"][0]
+    dg = [brine.dump((magic, regc, ((PROBE_NAME,), PROBE_PORT))), brine.dump((magic, qc, (PROBE_NAME,))),
+          brine.dump((magic, qc, ("no-such-service",)))]
+    saved = reg.brine
+    reg.brine = _BrineProxy(brine, [(("10.9.9.9", PROBE_PORT),)])
+    try:
+        r = serve(reg, dg, survive=False)
+    finally:
+        reg.brine = saved
+    if r is None:
+        return False
+    if r[1] is not None or r[2] != ():
+        raise Inexpressible("after a reply that cannot be dumped the registry answered %r / %r" % (r[1], r[2]))
+    return True
+
+
 def serve(reg, datagrams, logger=None, survive=True):
     """run the live `RegistryServer._work` over the datagrams (scripted `_recv` / `_send`); returns the reply to each
     (None = none); raises Inexpressible if the loop does not survive (unless survive=False: then returns None)"""
@@ -346,6 +382,9 @@ def gen_registry():
     L += ["", "/-- does the live `_work` survive its two `logger.warn` paths (wrong magic, unknown command) with a real",
           "logging.Logger (observed) -/",
           "def realLoggerSurvivesWarn : Bool := %s" % ("true" if real_logger_survives(reg, magic) else "false")]
+    L += ["", "/-- is `brine.dump(reply)` guarded: does the live `_work` go on when it raises (observed with a stand-in for `brine`",
+          "in the registry's namespace whose dump of one reply raises RecursionError) -/",
+          "def replyDumpGuarded : Bool := %s" % ("true" if reply_dump_guarded(reg, magic, reqs) else "false")]
     closes = tcp_recv_closes_unreplied(reg)
     L += ["", "/-- does `TCPRegistryServer._recv` close the sockets of earlier requests that got no reply (observed by running",
           "the live method over stand-in sockets) -/",
